@@ -332,7 +332,7 @@ def run_t2(run, c):
     # ---- monitor
     if 'n1' in o and o['n1'] - n_act > bound:
         ck.violation('t2:unbounded:commands', 't2: tag.ndef sent %d commands, data area of %d bytes allows %d' % (o['n1'] - n_act, dend - 16, bound), c)
-    view = sim.view(None)
+    view = sim.view(None, max(16 * len(clf.log) + 64, 4096))
     for k in ('x1', 'x2'):
         if o.get(k):
             monitor_tlv(ck, 't2', c, o[k], view, 16, dend)
@@ -340,7 +340,13 @@ def run_t2(run, c):
         ck.violation('t2:has_changed', 't2: has_changed reports a change on an unchanged tag', c)
     # ---- model: first read, second read
     budget1 = None if c['stop'] is None else max(c['stop'] - n_act, 0)
-    em1 = sim.view(budget1)
+
+    def loaded(lo, hi):
+        """bytes the implementation loaded with the commands lo..hi of the log (+ margin): more is never needed
+        to follow it; a model that asks for more than that runs into the end and is reported as a mismatch"""
+        return 16 * sum(1 for cmd, r in clf.log[lo:hi] if cmd[:1] == b'\x30' and len(r) == 35) + 64
+    lim1 = loaded(n_act, o.get('n1', len(clf.log)))
+    em1 = sim.view(budget1, lim1)[:lim1]
 
     def chk1(out, o=o, budget1=budget1):
         st, d = out.rsplit(' d=', 1)
@@ -354,7 +360,8 @@ def run_t2(run, c):
     run.model('t2read ' + hexarg(em1), chk1)
     if 'n2' in o and not str(o['r2']).startswith('exc'):
         budget2 = None if c['stop'] is None else max(c['stop'] - o['n1'], 0)
-        em2 = sim.view(budget2)
+        lim2 = loaded(o['n1'], o['n2'])
+        em2 = sim.view(budget2, lim2)[:lim2]
 
         def chk2(out, o=o):
             st, d = out.rsplit(' d=', 1)
@@ -1029,6 +1036,13 @@ def main():
         run.flush()
         ck.finish(level='proof', rule='replay of one recorded case')
 
+    import time as _time
+    marks = [('start', _time.time())]
+
+    def mark(name):
+        marks.append((name, _time.time()))
+        ck.dist['seconds:' + name] = round(marks[-1][1] - marks[-2][1], 1)
+
     def go(c):
         RUNNERS[c['kind']](run, c)
         if len(run.lines) > 2000:
@@ -1053,6 +1067,7 @@ def main():
             for cs in with_stops(rng, c, ncmd_of(c), quick):
                 go(cs)
 
+    mark('corpus')
     # ---- activation variants
     for sel in range(256):
         for sens in (['4400', '000c', '0400'] if quick else ['4400', '000c', '0400', '4403', 'ff0c', '00ff']):
@@ -1107,6 +1122,7 @@ def main():
     go({'kind': 't3', 'blocks': blocks.hex(), 'idm': '01fe030405060708', 'pmm': 'ffffffffffffffff', 'sensf': None,
         'sys_in_sensf': True, 'max_read': 15, 'beyond': 'status', 'poll': True, 'stop': None, 'mode': 'timeout'})
     run.flush()
+    mark('activation')
 
     # ---- readers: random images and mutations of valid layouts, with a stop point after every command
     n_img = {'t2': 700, 't1': 500, 't3': 700, 't4': 500} if quick else {'t2': 9000, 't1': 6000, 't3': 9000, 't4': 6000}
@@ -1120,7 +1136,8 @@ def main():
                 n = ncmd_of(c)
                 for cs in with_stops(rng, c, n, quick, every=(not quick and n <= 40)):
                     go(cs)
-    run.flush()
+        run.flush()
+        mark('readers-' + kind)
 
     # ---- raw answers: arbitrary byte strings as the n-th response (monitor; Type 3/4 also against the model)
     targets = {
@@ -1162,6 +1179,7 @@ def main():
                        for _ in range(rng.choice([0, 1, 2, 6]))]
             go({'kind': 'raw', 'tech': tech, 'target': targets[tech], 'script': script, 'tail': rng.choice([None, None, 'txerr', ''])})
     run.flush()
+    mark('raw')
 
     ck.finish(level='proof',
               rule='corpus of past failures; activation: every SEL_RES, every subset of TA/TB/TC x historical bytes x FSCI x FWI (incl. RFU) '
